@@ -58,8 +58,20 @@ pub trait Interface: ErrorHandler {
     /// passed to the error handler, the rest of the faulty program message
     /// (up to its terminator) is discarded and the following messages are
     /// executed as usual.
-    async fn run<'a>(&mut self, mut input: &'a [u8], response: &mut impl crate::Write) -> &'a [u8] {
+    async fn run<'a>(&mut self, input: &'a [u8], response: &mut impl crate::Write) -> &'a [u8] {
         let mut header = self.root_node();
+        self.run_from(&mut header, input, response).await
+    }
+
+    /// Like [Interface::run], but starts with the header path in `header_path` and
+    /// leaves the path that is current at the end of the parsed input there, so
+    /// that a message that arrives in several pieces can be continued.
+    #[doc(hidden)]
+    async fn run_from<'a>(
+        &mut self, header_path: &mut &'static tree::Node, mut input: &'a [u8],
+        response: &mut impl crate::Write,
+    ) -> &'a [u8] {
+        let mut header = *header_path;
 
         while !input.is_empty() {
             let result = parser::parse(self.root_node(), header, input);
@@ -70,6 +82,7 @@ pub trait Interface: ErrorHandler {
             if let Err(ParseError::Incomplete) = result {
                 #[cfg(feature = "defmt")]
                 defmt::trace!("Incomplete Input");
+                *header_path = header;
                 return input;
             } 
             else if let Err(error) = result {
@@ -85,7 +98,10 @@ pub trait Interface: ErrorHandler {
                         header = self.root_node();
                         continue;
                     }
-                    None => return input,
+                    None => {
+                        *header_path = header;
+                        return input;
+                    }
                 }
             }
 
@@ -110,6 +126,7 @@ pub trait Interface: ErrorHandler {
 
             input = i;
         }
+        *header_path = header;
         &[][..]
     }
 
@@ -119,6 +136,10 @@ pub trait Interface: ErrorHandler {
     
         let mut proc_offset = 0;
         let mut read_offset = 0;
+
+        // The header path of a message whose first units have been executed
+        // while the rest has not arrived yet.
+        let mut header = self.root_node();
     
         loop {
             let count = adapter.read(&mut cmd_buf[read_offset..]).await?;
@@ -132,7 +153,7 @@ pub trait Interface: ErrorHandler {
                 let terminator_pos = read_offset + position;
                 let data = &cmd_buf[proc_offset..=terminator_pos];
     
-                let remaining = self.run(data, &mut res_buf).await;
+                let remaining = self.run_from(&mut header, data, &mut res_buf).await;
 
                 if !res_buf.is_empty() {
                     adapter.write(&res_buf).await?;
@@ -166,6 +187,7 @@ pub trait Interface: ErrorHandler {
                 defmt::warn!("SCPI buffer overflow, resetting buffer");
                 read_offset = 0;
                 proc_offset = 0;
+                header = self.root_node();
             }
         }
     }
